@@ -1,4 +1,6 @@
 """C09 - TTL expiry fires exactly once, on time, never early; a refresh postpones it."""
+import random
+
 from .. import scen, stackprop
 from .c05 import static_discovery, directed_renewal as renewal_discovery
 from .c06 import directed_renewal as renewal_server
@@ -18,7 +20,7 @@ def run(ctx):
     ctx.rule = ("histories of add / refresh / stop / remove-all-for-address (reboot) / connection loss / re-add for several keys and addresses in BOTH "
                 "TimedStore instances (found services, server subscriptions), TTL {1,2,3,infinite}, refreshes anywhere before, exactly at and one tick "
                 "around the deadline (a touch exactly at a pending deadline is accepted either way), both tie orders, runs of 6-12 virtual seconds plus "
-                "infinite-TTL entries observed past 0xFFFFFF s; judged by check_C09 (per-key expiry history versus the specification); every scenario in which an "
+                "infinite-TTL entries observed past 0xFFFFFF s; a stop and a re-add of one entry in ONE message exactly at, around and away from its deadline; judged by check_C09 (per-key expiry history versus the specification); every scenario in which an "
                 "event falls on the tick of a TTL deadline is run a second time with that event delivered a quarter tick EARLY (the expiry then runs while "
                 "loop.time() is below its deadline, as asyncio allows within its clock resolution) and must give the outcome of the exact run")
     ctx.assumptions = ["the loop is never late (virtual time): real-time lateness is outside the model"]
@@ -40,6 +42,8 @@ def run(ctx):
             sc["cfg"] = tuple(cfg)
         sc["end"] = (0xFFFFFF + 10) * scen.T
         scs.append(sc)
+    r2 = random.Random(ctx.seed * 7919 + 9)       # a stream of its own: the scenarios above stay what they were
+    scs += [scen.pair_in_one_message(r2) for _ in range(40 if quick else 1500)]
     stackprop.run_scenarios(ctx, scs, 3009, CODES, what="TTL store")
 
 
